@@ -242,6 +242,15 @@ Proof.
   destruct (send_staged _) as [[s4 sent] i1]. exact H4.
 Qed.
 
+Lemma Inv_restart s : Inv s -> Inv (fst (do_restart s)).
+Proof.
+  intros H. unfold do_restart. cbn [fst].
+  split_state s. open_inv H.
+  destruct p as [p|], c as [c|], n as [n|], h as [h|]; red_all; unfold kp_ok in *; red_all;
+  (constructor; red_all; unfold kp_ok; red_all;
+   [ tbl_tac Ht | try (intuition lia) .. ]); auto.
+Qed.
+
 Lemma Inv_step s e : Inv s -> Inv (fst (step s e)).
 Proof.
   intros H. unfold step.
@@ -259,6 +268,7 @@ Proof.
   - cbn [fst]. apply Inv_set_now; [exact H0|]. cbn [now set_now]. lia.
   - exact H0.
   - exact H0.
+  - apply Inv_restart, H0.
 Qed.
 
 Theorem Inv_reachable evs : Inv (final step init evs).
@@ -719,6 +729,7 @@ Proof.
   - intros [].
   - intros [].
   - intros [].
+  - intros [].
 Qed.
 
 (* what SendHandshakeInitiation does when it is called *)
@@ -845,6 +856,7 @@ Proof.
   - cbn. auto.
   - cbn. auto.
   - cbn. auto.
+  - cbn. discriminate.
 Qed.
 
 (* x was confirmed in the history evs: some earlier event was data received and accepted under x *)
@@ -1061,6 +1073,7 @@ Proof.
   - exact P0.
   - exact P0.
   - exact P0.
+  - intros _. reflexivity.
 Qed.
 
 Theorem next_excludes_previous evs : next (R evs) <> None -> prev (R evs) = None.
@@ -1102,4 +1115,28 @@ Corollary no_send_without_authentic_receive evs e x k :
 Proof.
   intros Hx Hc Hi. destruct (no_send_under_unconfirmed evs e x Hx) as (k' & Hc' & Hid & _ & Hconf).
   assert (k' = k) by congruence. subst k'. apply confirmed_needs_authentic, Hconf, Hi.
+Qed.
+
+(* ---- restart (interface down/up) ----------------------------------------------------------------- *)
+
+(* After a restart the peer holds no key, no handshake is pending and the index table honours
+   NOTHING: every index ever issued is refused. *)
+Theorem restart_refuses_all evs :
+  let s' := fst (step (R evs) Restart) in
+  keys s' = [] /\ hs s' = None /\ staged s' = 0 /\ snd (step (R evs) Restart) = out0 /\
+  (forall i, honoured s' i = false) /\
+  (forall sid, step s' (Recv sid) = (set_now s' (now s' + 1), out0)).
+Proof.
+  intros s'.
+  assert (HR : s' = R (evs ++ [Restart])) by (subst s'; rewrite R_snoc; reflexivity).
+  assert (Hk : keys s' = []) by reflexivity.
+  assert (Hh : hs s' = None) by reflexivity.
+  assert (Hhon : forall i, honoured s' i = false).
+  { intros i. destruct (honoured s' i) eqn:E; [|reflexivity]. exfalso.
+    rewrite HR in E. apply index_table_is_slots in E. rewrite <- HR in E. rewrite Hk, Hh in E.
+    destruct E as [[]|E]; discriminate. }
+  repeat split; try assumption.
+  intros sid. destruct (assoc sid (sessions s')) as [i|] eqn:Ea.
+  - rewrite HR. apply (rotated_out_refused (evs ++ [Restart]) sid i); rewrite <- HR; [exact Ea|rewrite Hk; intros []].
+  - unfold step, do_recv. cbn [sessions set_now]. rewrite Ea. reflexivity.
 Qed.
